@@ -67,6 +67,26 @@ def gen_scenarios(tier):
     return main, inline
 
 
+def gen_sweep_scenarios(tier):
+    """Targeted family for the systematic one-long-preemption sweep at full granularity (list internals included):
+    a holder unlocks while two waiters enqueue concurrently; three contending lockers; a stop racing; a second round."""
+    progs = [
+        ("B", 2, [T(1), U(1)], [L(2), U(2)], [L(3), U(3)]),
+        ("A", 2, [L(1), U(1)], [L(2), U(2)], [L(3), U(3)]),
+        ("J", 2, [L(1), U(1)], [L(2), U(2)], [S(2), L(3), U(3)]),
+        ("C", 2, [L(1), U(1), L(4), U(4)], [L(2), U(2)], [T(3), U(3)]),
+        ("B", 1, [T(1), U(1)], [L(2), U(2)], [L(3), U(3)]),
+    ]
+    if tier == "thorough":
+        progs += [
+            ("K", 2, [T(1), S(2), U(1)], [L(2), U(2)], [L(3), U(3)]),
+            ("F", 2, [L(1), U(1), L(4), U(4)], [L(2), U(2), L(5), U(5)], []),
+            ("I", 2, [T(1), U(1)], [L(2), U(2)], [L(3), S(3), U(3)]),
+            ("C", 1, [L(1), U(1), L(4), U(4)], [L(2), U(2)], [T(3), U(3)]),
+        ]
+    return [dict(id=i + 1, name=n, ver=v, sched=0, prog=[list(x) for x in p]) for i, (n, v, *p) in enumerate(progs)]
+
+
 def gen_c11_scenarios(tier):
     """Cancellable mutex with one recording manual scheduler per harness thread (= context)."""
     progs = [
@@ -146,7 +166,7 @@ def execute_runs(ctx, runs, prop):
 
     for mode, xe, scnfile, args, total, scnmap in runs:
         t0 = time.time()
-        if not mode.startswith("inline") and mode != "guided-v1" and found_so_far() >= 3:
+        if not mode.startswith("inline") and mode not in ("guided-v1", "sweep-l2") and found_so_far() >= 3:
             rep.note("%s: skipped (violations already found in earlier runs)" % mode)
             continue
         lp = os.path.join(ctx.work, "log_%s.ndjson" % mode)
@@ -308,7 +328,12 @@ def run_c15(ctx):
         # design-level results that are not C15 alarms by themselves
         ("kill", lambda: vlib.model_check(ctx, "prim", "AtomicIntrusiveListMC", cfg="AtomicIntrusiveListKill.cfg", must_hold=False, workers=1, timeout=600)),
         ("inline", lambda: vlib.model_check(ctx, "sync", "MutexV2MC", cfg="MutexV2Inline.cfg", env={"SCENARIOS": spi, "EDGES": ""}, must_hold=False, workers=1, timeout=900)),
-        ("exe_ub", lambda: vlib.build(ctx, san="undefined", **bargs)),
+        # bulk driver: library assertions compiled out (-DNDEBUG), so that a broken list protocol shows its semantic consequence
+        # (lost waiter, double grant) to the monitor / deadlock detector instead of aborting in UNIFEX_ASSERT first; the
+        # ASan build keeps the assertions
+        ("exe_ub", lambda: vlib.build(ctx, san="undefined", **dict(bargs, defs=bargs["defs"] + ["NDEBUG"]))),
+        # non-vacuity of the list model: the variant "tail hint swung after the predecessor link is unlocked" must be refuted
+        ("hint", lambda: vlib.model_check(ctx, "prim", "AtomicIntrusiveListMC", cfg="AtomicIntrusiveListHint.cfg", must_hold=False, workers=1, timeout=600)),
         ("exe_asan", lambda: vlib.build(ctx, san="address,undefined", **bargs)),
     ]
     if os.environ.get("MUTEX_DEV_SKIP_MC"):     # development aid for iterating on mutants: keep only what the replay needs
@@ -337,6 +362,12 @@ def run_c15(ctx):
         rep.note("list refinement: TLC checked PROPERTY Refines (prim/AtomicIntrusiveList => prim/AbstractList under the mapping of "
                  "prim/AtomicIntrusiveListRef) together with the list invariants on %s (%d states); MutexV2 re-checked over that "
                  "abstract list (MutexV2TwoPhase.cfg, %d states)" % (listcfg, res["list"]["distinct"], (res.get("v2tp") or {}).get("distinct", 0)))
+    rh = res.get("hint")
+    if rh is not None:
+        if rh["kind"] != "invariant":
+            raise vlib.Broken("list model is vacuous: the wrong variant HintAfterUnlock of push_back is not refuted (%s)" % rh["kind"])
+        rep.note("non-vacuity: prim/AtomicIntrusiveList with HintAfterUnlock (sentinel_.self stored after unlock of the predecessor "
+                 "link) violates %s" % rh["violated"])
     r = res.get("kill") or {"kind": "skipped"}
     if r["kind"] == "invariant":
         rep.oos.append(dict(kind="tlc", module="prim/AtomicIntrusiveList", violated=r["violated"],
@@ -382,9 +413,14 @@ def run_c15(ctx):
     # ---- 4. real code
     byid = {s["id"]: s for s in main}
     byid_inline = {s["id"]: s for s in inline}
+    sweep = gen_sweep_scenarios(ctx.tier)
+    sps = os.path.join(ctx.work, "scenarios_sweep.json")
+    json.dump(sweep, open(sps, "w"))
+    byid_sweep = {s["id"]: s for s in sweep}
     runs = [
         ("guided-v1", exe, sp, ["--mode", "guided", "--level", 2, "--behaviours", b1], nb1, byid),
         ("guided-v2", exe, sp, ["--mode", "guided", "--level", 1, "--behaviours", b2], nb2, byid),
+        ("sweep-l2", exe, sps, ["--mode", "sweep", "--level", 2], len(sweep), byid_sweep),
         ("dfs-l1", exe, sp, ["--mode", "dfs", "--level", 1, "--bound", 2 if quick else 3, "--cap", 200 if quick else 2000], len(main), byid),
         ("dfs-l2", exe, sp, ["--mode", "dfs", "--level", 2, "--bound", 2, "--cap", 150 if quick else 1500], len(main), byid),
         ("random-l2", exe, sp, ["--mode", "random", "--level", 2, "--seed", ctx.seed, "--cap", 120 if quick else 1000], len(main), byid),
@@ -394,7 +430,7 @@ def run_c15(ctx):
     ]
     execute_runs(ctx, runs, "C15")
     rep.rule("executions = guided replays of TLC behaviours (MutexV1 at full granularity, MutexV2 with list operations atomic) + "
-             "DFS(preemption-bounded, two granularities) + seeded random schedules of the real v1/v2 async_mutex; "
+             "DFS(preemption-bounded, two granularities) + systematic one-long-preemption sweep at full granularity + seeded random schedules of the real v1/v2 async_mutex; "
              "distinct_nontrivial = distinct recorded event sequences with more than 3 events")
 
 
